@@ -1373,19 +1373,28 @@ CLAUSES = [
     Clause('basis_random', oracle_basis_random, basis_random_cases, quick=640, thorough=12000,
            min_share={'nt': 0.35, 'centred': 0.1, 'rigid_rot': 0.15}, max_share={'refusal': 0.15},
            desc='the same oracle on random cells of every family / centred setting (30 % rigidly rotated), planes up to index 4'),
-    Clause('surface', oracle_surface, surface_cases, quick=600, thorough=10000,
+    Clause('surface', oracle_surface, surface_cases, quick=570, thorough=10000,
            min_share={'nt': 0.2, 'built': 0.4, 'multilayer': 0.2, 'multishift': 0.3, 'vacuum': 0.12, 'minwidth_decides': 0.03,
-                      'negmult': 0.12, 'tuplemult': 0.12, 'centred': 0.12, 'hex4': 0.02, 'cut_a': 0.07, 'cut_b': 0.07},
+                      'negmult': 0.12, 'tuplemult': 0.12, 'centred': 0.12, 'hex4': 0.02, 'cut_a': 0.07, 'cut_b': 0.07,
+                      'history_second_surface': 0.26, 'history_third_surface': 0.1, 'history_shift_persisted': 0.07,
+                      'history_set_shift': 0.16, 'history_defaults_after_given': 0.14},
            max_share={'refusal_search': 0.25, 'refusal_cut': 0.4, 'layer_ambiguous': 0.05, 'c04_filtering_skip': 0.02},
            desc='FreeSurface: chosen vectors, transform, rcellwidth; all offered shifts halfway between atomic planes, one per gap; built '
                 'systems: pbc, box = multipliers x oriented cell, same crystal by map-back with multiplicity, cut between planes, '
-                'minwidth/even/sizemults, vacuum lengthens the cut vector only, surfacearea'),
-    Clause('fault', oracle_fault, fault_cases, quick=600, thorough=10000,
+                'minwidth/even/sizemults, vacuum lengthens the cut vector only, surfacearea; in half of the cases after one or two '
+                'earlier surface() / set_shift() calls with other arguments on the same object (only the shift persists)'),
+    Clause('fault', oracle_fault, fault_cases, quick=570, thorough=10000,
            min_share={'nt': 0.2, 'built': 0.4, 'shifted': 0.3, 'both_sides': 0.35, 'lattice_nonzero': 0.05, 'custom_avect': 0.1,
                       'onplane_exact': 0.015, 'itermap': 0.07, 'refusal_avect': 0.025, 'kind_faultshift': 0.03, 'fpos_rel': 0.12,
-                      'a1_only': 0.06, 'centred': 0.12},
+                      'a1_only': 0.06, 'centred': 0.12,
+                      'history_second_surface': 0.25, 'history_third_surface': 0.11, 'history_faultpos_defaulted_after_set': 0.07,
+                      'history_faultpos_defaulted_after_default': 0.025, 'history_natoms_changed': 0.23,
+                      'history_setter_faultpos': 0.12, 'history_fault_between': 0.075, 'history_setter_avect': 0.02,
+                      'history_shift_persisted': 0.05, 'history_set_shift': 0.17, 'history_pre_fault': 0.08},
            max_share={'refusal_search': 0.25, 'refusal_cut': 0.4, 'c04_filtering_skip': 0.02},
            desc='StackingFault.fault: atoms not above the plane stay, atoms above move by a1*a1vect + a2*a2vect + outofplane (or the '
                 'given faultshift) modulo the in-plane cell vectors; full lattice vectors restore the slab; fault positions between '
-                'layers (cart/rel/default, at surface() or fault()); user shift vectors; refusals; iterfaultmap grid'),
+                'layers (cart/rel/default, at surface() or fault()); user shift vectors; refusals; iterfaultmap grid; in half of the '
+                'cases after one or two earlier surface() calls on the same object (other termination / size / vacuum / fault position) '
+                'with faultpos and shift-vector setters and fault() calls in between'),
 ]
